@@ -155,3 +155,11 @@ Definition op_obs (c : N * text * text * option motion * nat * nat) : text * N *
   let k := if k =? 0 then OpDelete else if k =? 1 then OpYank else OpChange in
   let s := match m with Some m => run_op k ins t m count i | None => run_lines k ins t count i end in
   (o_text s, N.of_nat (o_cur s), o_reg s).
+
+(** an operator command followed by a put: (operator case as for [op_obs], put behind the cursor?, count of the put) *)
+Definition op_put_obs (c : (N * text * text * option motion * nat * nat) * bool * nat) : text * N * option (bool * text) :=
+  let '((k, ins, t, m, count, i), after, pc) := c in
+  let k := if k =? 0 then OpDelete else if k =? 1 then OpYank else OpChange in
+  let s := match m with Some m => run_op k ins t m count i | None => run_lines k ins t count i end in
+  let s' := put after pc s in
+  (o_text s', N.of_nat (o_cur s'), o_reg s').
